@@ -1,27 +1,37 @@
-// Observation (outside the letter of C16, not reported as a violation): chain
-// arrays with a dangling partial length prefix, or with bytes after the outer
-// vector, are accepted and the leftover silently dropped.
+// Reproducer (C16): chain arrays with a dangling partial length prefix, or with bytes after the outer
+// vector, are accepted and the leftover silently dropped: the bytes are not the serialisation of the
+// value that is returned (re-serialising the returned certificates gives other bytes).
 //
-//	cd /verif/mc && GOFLAGS=-mod=mod GOPROXY=off go run ./cmd/c16/repro/chainlenient
+//	cd /verif/mc && GOFLAGS=-mod=mod GOPROXY=off go run ./cmd/c16/repro/chainlenient   (exit 1 = defect present)
 package main
 
 import (
 	"fmt"
+	"os"
 
 	"github.com/zmap/zcrypto/ct"
 )
 
 func main() {
+	bad := 0
+	try := func(what string, f func([]byte) ([]ct.ASN1Cert, error), b []byte) {
+		certs, err := f(b)
+		fmt.Printf("%-60s %x -> certs=%q err=%v\n", what, b, certs, err)
+		if err == nil {
+			bad++
+		}
+	}
 	// outer length 6: one certificate "AA" (00 00 02 41 41) followed by ONE stray byte 00
-	b := []byte{0, 0, 6, 0, 0, 2, 'A', 'A', 0}
-	certs, err := ct.UnmarshalX509ChainArray(b)
-	fmt.Printf("stray byte inside the list : certs=%q err=%v\n", certs, err)
+	try("X509: stray byte inside the list", ct.UnmarshalX509ChainArray, []byte{0, 0, 6, 0, 0, 2, 'A', 'A', 0})
 	// outer length 7: certificate "AA" then two bytes of a length prefix
-	b = []byte{0, 0, 7, 0, 0, 2, 'A', 'A', 0, 0}
-	certs, err = ct.UnmarshalX509ChainArray(b)
-	fmt.Printf("2-byte partial length prefix: certs=%q err=%v\n", certs, err)
+	try("X509: 2-byte partial length prefix", ct.UnmarshalX509ChainArray, []byte{0, 0, 7, 0, 0, 2, 'A', 'A', 0, 0})
 	// bytes after the outer vector
-	b = []byte{0, 0, 5, 0, 0, 2, 'A', 'A', 0xde, 0xad}
-	certs, err = ct.UnmarshalX509ChainArray(b)
-	fmt.Printf("trailing bytes after vector : certs=%q err=%v\n", certs, err)
+	try("X509: trailing bytes after the vector", ct.UnmarshalX509ChainArray, []byte{0, 0, 5, 0, 0, 2, 'A', 'A', 0xde, 0xad})
+	try("Precert: trailing byte after the chain vector", ct.UnmarshalPrecertChainArray, []byte{0, 0, 1, 'P', 0, 0, 5, 0, 0, 2, 'A', 'A', 0xff})
+	try("Precert: stray byte inside the list", ct.UnmarshalPrecertChainArray, []byte{0, 0, 1, 'P', 0, 0, 6, 0, 0, 2, 'A', 'A', 0})
+	if bad > 0 {
+		fmt.Printf("DEFECT: %d malformed chain arrays accepted\n", bad)
+		os.Exit(1)
+	}
+	fmt.Println("ok: all refused")
 }
